@@ -30,6 +30,11 @@ type BaseOutSession struct {
 
 	sdpCtx sdp.LogicContext
 
+	// connMu guards the four udp connections and disposed: they are set by SETUP in the goroutine of the command
+	// connection, while the session is already registered with its group (since DESCRIBE) and may be disposed from
+	// the tick loop, a kick or the shutdown at any time
+	connMu           sync.Mutex
+	disposed         bool
 	audioRtpConn     *nazanet.UdpConnection
 	videoRtpConn     *nazanet.UdpConnection
 	audioRtcpConn    *nazanet.UdpConnection
@@ -70,6 +75,14 @@ func (session *BaseOutSession) InitWithSdp(sdpCtx sdp.LogicContext) {
 }
 
 func (session *BaseOutSession) SetupWithConn(uri string, rtpConn, rtcpConn *nazanet.UdpConnection) error {
+	session.connMu.Lock()
+	if session.disposed {
+		// nobody is left to dispose connections that arrive now
+		session.connMu.Unlock()
+		_ = rtpConn.Dispose()
+		_ = rtcpConn.Dispose()
+		return nazaerrors.Wrap(base.ErrRtsp)
+	}
 	if session.sdpCtx.IsAudioUri(uri) {
 		session.audioRtpConn = rtpConn
 		session.audioRtcpConn = rtcpConn
@@ -77,8 +90,10 @@ func (session *BaseOutSession) SetupWithConn(uri string, rtpConn, rtcpConn *naza
 		session.videoRtpConn = rtpConn
 		session.videoRtcpConn = rtcpConn
 	} else {
+		session.connMu.Unlock()
 		return nazaerrors.Wrap(base.ErrRtsp)
 	}
+	session.connMu.Unlock()
 
 	go rtpConn.RunLoop(session.onReadRtpPacket)
 	go rtcpConn.RunLoop(session.onReadRtcpPacket)
@@ -217,18 +232,23 @@ func (session *BaseOutSession) dispose(err error) error {
 	var retErr error
 	session.disposeOnce.Do(func() {
 		Log.Infof("[%s] lifecycle dispose rtsp BaseOutSession. session=%p", session.UniqueKey(), session)
+		session.connMu.Lock()
+		session.disposed = true
+		audioRtpConn, audioRtcpConn := session.audioRtpConn, session.audioRtcpConn
+		videoRtpConn, videoRtcpConn := session.videoRtpConn, session.videoRtcpConn
+		session.connMu.Unlock()
 		var e1, e2, e3, e4 error
-		if session.audioRtpConn != nil {
-			e1 = session.audioRtpConn.Dispose()
+		if audioRtpConn != nil {
+			e1 = audioRtpConn.Dispose()
 		}
-		if session.audioRtcpConn != nil {
-			e2 = session.audioRtcpConn.Dispose()
+		if audioRtcpConn != nil {
+			e2 = audioRtcpConn.Dispose()
 		}
-		if session.videoRtpConn != nil {
-			e3 = session.videoRtpConn.Dispose()
+		if videoRtpConn != nil {
+			e3 = videoRtpConn.Dispose()
 		}
-		if session.videoRtcpConn != nil {
-			e4 = session.videoRtcpConn.Dispose()
+		if videoRtcpConn != nil {
+			e4 = videoRtcpConn.Dispose()
 		}
 
 		session.waitChan <- nil
